@@ -77,7 +77,7 @@ void snoopy_message_generateFromFormat (
     // Loop all the way to the end of log message format specification
     while (strlen(fmtPos_nextFormatTag) > 0) {
         size_t lengthToCopy;
-        char  dataSourceTag[100];
+        char  dataSourceTag[100 + SNOOPY_DATASOURCE_ARG_MAX_SIZE]; // Data source name + ':' + data source argument
         int   dataSourceTagLength;
         char *fmtPos_dataSourceTagArg;
         const char *dataSourceNamePtr;
@@ -111,6 +111,9 @@ void snoopy_message_generateFromFormat (
         }
         dataSourceTag[0]    = '\0';
         dataSourceTagLength = (int)((fmtPos_nextFormatTagClose-1) - (fmtPos_nextFormatTag+2) + 2);
+        if (dataSourceTagLength > (int) sizeof(dataSourceTag)) {
+            dataSourceTagLength = (int) sizeof(dataSourceTag);
+        }
         snprintf(dataSourceTag, dataSourceTagLength, "%s", fmtPos_nextFormatTag + 2);
 
         // If data source tag contains ":", then split it into data source name and data source argument
